@@ -98,7 +98,7 @@ func newConc(seed int64, nkeys, nvals int, class string, emptyVal bool) *conc {
 				for s := range set {
 					p := []byte(s)
 					if len(p) > 0 {
-						k = append(append([]byte{}, p[:1+r.Intn(len(p))]...), k[:r.Intn(4)]...)
+						k = append(append([]byte{}, p[:1+r.Intn(len(p))]...), k[:r.Intn(minInt(4, len(k)+1))]...)
 					}
 					break
 				}
